@@ -179,7 +179,11 @@ D2(cf, h) == \A k \in 1..Len(h) :
 \*      connection with the matching deadline cleared as well - except for an EMPTY list (see above)
 \*      whose deadline, armed on entry, nobody clears: not on its own fallback, and not on the fallback of the
 \*      enclosing list if the subroute handler was its last handler of its last route
-D2b(cf, h) == \A k \in 1..Len(h) : Is(h[k], "Fallback") => (LastDl(h, k) = 0 \/ Len(cf.lists[LastDl(h, k)]) = 0)
+\* (a deadline armed with a timeout that no list configures is recorded as l = -1: it is not "cleared")
+D2b(cf, h) == \A k \in 1..Len(h) : Is(h[k], "Fallback") =>
+                (LastDl(h, k) = 0 \/ (LastDl(h, k) \in DOMAIN cf.lists /\ Len(cf.lists[LastDl(h, k)]) = 0))
+\* D0: every matching deadline is the timeout of the route list that arms it (none that no list configures)
+D0(cf, h) == \A k \in 1..Len(h) : Is(h[k], "Dl") => (h[k].l = 0 \/ h[k].l \in DOMAIN cf.lists)
 RECURSIVE SumPull(_)
 SumPull(h) == IF h = <<>> THEN 0
               ELSE (IF Is(Head(h), "Pull") THEN Head(h).n ELSE 0) + SumPull(Tail(h))
@@ -217,6 +221,7 @@ Violations(cf, h, limit, chunk) ==
   \cup (IF R8(cf, h) THEN {} ELSE {"R8 a tee branch did not read what the handlers after the tee read"})
   \cup (IF D1(cf, h) THEN {} ELSE {"D1 matching pulled bytes without an armed deadline"})
   \cup (IF D2(cf, h) THEN {} ELSE {"D2 handler of a matched route ran with the matching deadline armed"})
+  \cup (IF D0(cf, h) THEN {} ELSE {"D0 a matching deadline was armed with a timeout that no route list configures"})
   \cup (IF D2b(cf, h) THEN {} ELSE {"D2b the fallback received the connection with the matching deadline still armed"})
   \cup (IF D3(cf, h, limit) THEN {} ELSE {"D3 matching abandoned without cause"})
   \cup (IF B1(cf, h, limit, chunk) THEN {} ELSE {"B1 more than limit+chunk-1 bytes pulled before any handler"})
